@@ -312,8 +312,50 @@ func (g *gen) mediaMap() *playlist.MediaMap {
 
 // keys over the segment list: sticky once present (EXT-X-KEY has no "unset")
 func (g *gen) assignKeys(segs []*playlist.MediaSegment) {
-	x := g.subset("key-pattern", 5)
+	x := g.subset("key-pattern", 6)
 	switch x {
+	case 5:
+		// per-segment key rotation: the key of segment i+1 is the key of segment i with exactly
+		// one field changed (METHOD, URI, IV incl. set <-> unset, KEYFORMAT, KEYFORMATVERSIONS in
+		// turn) - Marshal must re-emit EXT-X-KEY for every single-field difference
+		k := &playlist.MediaKey{Method: playlist.MediaKeyMethodAES128, URI: g.uri(), IV: g.iv(),
+			KeyFormat: g.qstr(), KeyFormatVersions: "1"}
+		field := g.r.Intn(5)
+		for _, s := range segs {
+			c := *k
+			s.Key = &c
+			n := c
+			switch field % 5 {
+			case 0:
+				if n.Method == playlist.MediaKeyMethodAES128 {
+					n.Method = playlist.MediaKeyMethodSampleAES
+				} else {
+					n.Method = playlist.MediaKeyMethodAES128
+				}
+			case 1:
+				n.URI = g.uri()
+			case 2:
+				if n.IV == "" || g.r.Bool(2, 3) {
+					n.IV = g.iv()
+				} else {
+					n.IV = ""
+				}
+			case 3:
+				if n.KeyFormat == "" || g.r.Bool(2, 3) {
+					n.KeyFormat = g.qstr()
+				} else {
+					n.KeyFormat = ""
+				}
+			case 4:
+				if n.KeyFormatVersions == "" || g.r.Bool(2, 3) {
+					n.KeyFormatVersions = strconv.Itoa(1+g.r.Intn(9)) + "/" + strconv.Itoa(1+g.r.Intn(9))
+				} else {
+					n.KeyFormatVersions = ""
+				}
+			}
+			field++
+			k = &n
+		}
 	case 0: // no keys
 	case 1: // one key for all, shared pointer
 		k := g.key()
@@ -384,6 +426,9 @@ func (g *gen) media() *playlist.Media {
 		m.Skip = &playlist.MediaSkip{SkippedSegments: g.int31()}
 	}
 	nseg := 1 + g.r.Pick(5, 4, 2, 1)
+	if g.cnt["key-pattern"]%6 == 5 {
+		nseg += 3 + g.r.Intn(3) // the key-rotation pattern needs a run of segments
+	}
 	for i := 0; i < nseg; i++ {
 		m.Segments = append(m.Segments, g.segment())
 	}
